@@ -5,6 +5,7 @@
 EXTENDS Wire, Json, IOUtils, TLC
 
 CONSTANT KnownDev
+C == INSTANCE Checksum
 Rec == ndJsonDeserialize(IOEnv.TRACE)
 
 ValueMism(e) ==
@@ -19,6 +20,9 @@ ValueMism(e) ==
   \cup (IF e.read_eq = 0 THEN {"read.value_differs:" \o e.type} ELSE {})
   \cup (IF e.read_used # -1 /\ e.read_used # Len(x) THEN {"read.consumed:" \o e.type} ELSE {})
   \cup (IF e.from_bytes_eq = 0 THEN {"from_bytes_or_write_checksum:" \o e.type} ELSE {})
+  \* Ipv4Header::write() recomputes the header checksum: the encoding with bytes 10..11 replaced by the RFC 791 checksum of the header
+  \cup (IF e.type = "ipv4" /\ e.write2 # [i \in 1..Len(x) |-> IF i = 11 THEN C!Cks(C!ZeroAt(x, 10)) \div 256 ELSE IF i = 12 THEN C!Cks(C!ZeroAt(x, 10)) % 256 ELSE x[i]]
+        THEN {"encode.write_checksum:ipv4"} ELSE {})
   \* the value is the field sequence, however it was constructed (longer ICV / payload first, then the setter)
   \cup (IF e.alt = 0 THEN {"value.depends_on_construction_history:" \o e.type} ELSE {})
   \cup (IF Dec(e.type, x) # e.f THEN {"SPEC.RoundTrip"} ELSE {})
